@@ -159,8 +159,11 @@ func (cs ClientSpec) build() *goidc.Client {
 	if cs.JWT {
 		c.SetAttribute("jwt", true)
 	}
-	if cs.Pairwise {
+	if cs.Pairwise && !cs.SubTypeAbsent {
 		c.SubIdentifierType = goidc.SubIdentifierPairwise
+	}
+	if !cs.Pairwise && cs.SubTypePublic {
+		c.SubIdentifierType = goidc.SubIdentifierPublic
 	}
 	c.DPoPTokenBindingIsRequired = cs.DpopReq
 	c.TLSTokenBindingIsRequired = cs.TLSReq
